@@ -411,8 +411,8 @@ func runSession(t hx.TB, ln net.Listener, tg *target, c cfg, before2, after2 []c
 	_ = cli.Close()
 	select {
 	case <-done:
-	case <-time.After(3 * time.Second):
-		hx.Fail(t, "C16", "hang", "handler did not return within 3 s after the client closed; cfg=%+v session=%+v", c, s)
+	case <-time.After(12 * time.Second):
+		hx.Fail(t, "C16", "hang", "handler did not return within 12 s after the client closed; cfg=%+v session=%+v", c, s)
 		return
 	}
 	time.Sleep(2 * time.Millisecond)
